@@ -251,3 +251,124 @@ func TestVerifC02Methods(t *testing.T) {
 		s.Done()
 	}
 }
+
+// ---- bound method values handed to Func (targets resolved through the "-fm" wrapper's name) ----
+
+type mvT struct{ n int }
+
+var mvRan [4]int64
+
+//go:noinline
+func (m *mvT) Err(a string) string { mvRan[0]++; return fmt.Sprint("err:", a, m.n) }
+
+//go:noinline
+func (m *mvT) Errf(a string) string { mvRan[1]++; return fmt.Sprint("errf:", a, m.n) }
+
+//go:noinline
+func (m *mvT) For(a string) string { mvRan[2]++; return fmt.Sprint("for:", a, m.n) }
+
+//go:noinline
+func (m *mvT) Form(a string) string { mvRan[3]++; return fmt.Sprint("form:", a, m.n) }
+
+type mvCase struct {
+	Ops []vkit.Op `json:"ops"` // K: ret | reset ; I: method
+}
+
+func runMethodValues(ci interface{}, s *vkit.Stats) error {
+	c := ci.(*mvCase)
+	obj := &mvT{n: 3}
+	names := []string{"Err", "Errf", "For", "Form"}
+	vals := []func(string) string{obj.Err, obj.Errf, obj.For, obj.Form}
+	entries := make([]uintptr, len(names))
+	for i, n := range names {
+		want := "github.com/tencent/goom/zverif/c02.(*mvT)." + n
+		for _, f := range img.Im.Funcs {
+			if f.Name == want {
+				entries[i] = uintptr(f.Entry + img.Slide)
+			}
+		}
+		if entries[i] == 0 {
+			return nil
+		}
+	}
+	b := mocker.Create()
+	defer func() { _ = guard(func() { b.Reset() }) }()
+	live := map[int]string{}
+	check := func(step int, what string) error {
+		var allowed []vkit.Range
+		for i := range names {
+			if _, ok := live[i]; ok {
+				allowed = append(allowed, vkit.Range{Lo: entries[i], Hi: entries[i] + 13})
+			}
+		}
+		if bad := vkit.Outside(img.Diff(), allowed); len(bad) > 0 {
+			return fmt.Errorf("step %d (%s): the image differs from pristine outside the entry jumps of the mocked methods: %s", step, what, img.Describe(bad))
+		}
+		for i, n := range names {
+			before := mvRan[i]
+			var got string
+			if pv := guard(func() { got = vals[i]("a") }); pv != nil {
+				return fmt.Errorf("step %d (%s): calling %s panicked: %v", step, what, n, pv)
+			}
+			if want, ok := live[i]; ok {
+				if got != want || mvRan[i] != before {
+					return fmt.Errorf("step %d (%s): the method value of %s was stubbed to return %q; the call returned %q (original ran %d times)", step, what, n, want, got, mvRan[i]-before)
+				}
+			} else if mvRan[i]-before != 1 {
+				return fmt.Errorf("step %d (%s): %s is not mocked but its original body ran %d times (returned %q)", step, what, n, mvRan[i]-before, got)
+			}
+		}
+		return nil
+	}
+	for step, op := range c.Ops {
+		for len(op.I) < 1 {
+			op.I = append(op.I, 0)
+		}
+		i := vkit.Pick(op.I[0], len(names))
+		what := op.K + " " + names[i]
+		var pv interface{}
+		switch op.K {
+		case "ret":
+			if _, ok := live[i]; ok {
+				continue
+			}
+			want := fmt.Sprintf("stub-%d-%s", step, names[i])
+			pv = guard(func() { b.Func(vals[i]).Return(want) })
+			live[i] = want
+		default:
+			pv = guard(func() { b.Reset() })
+			live = map[int]string{}
+		}
+		if pv != nil {
+			return fmt.Errorf("step %d (%s): panicked: %v", step, what, pv)
+		}
+		if err := check(step, what); err != nil {
+			return err
+		}
+	}
+	_ = guard(func() { b.Reset() })
+	live = map[int]string{}
+	if err := check(len(c.Ops), "final Reset"); err != nil {
+		return err
+	}
+	s.Class("method-value-histories")
+	s.NonTrivial(fmt.Sprint(c.Ops))
+	return nil
+}
+
+func TestVerifC02MethodValues(t *testing.T) {
+	if f, err := os.OpenFile(os.DevNull, os.O_WRONLY, 0); err == nil && os.Getenv("VERIF_VERBOSE") == "" {
+		os.Stdout = f
+	}
+	if img == nil {
+		img = vkit.SnapshotText()
+	}
+	gen := vkit.OpGen([]string{"ret", "reset"}, []int{4, 1}, 1)
+	p := &vkit.Prop{ID: "C02", Unit: "method-values", Journal: true, New: func() interface{} { return &mvCase{} },
+		Gen: func(rt *rapid.T) interface{} { return &mvCase{Ops: rapid.SliceOfN(gen, 1, 8).Draw(rt, "ops")} },
+		Run: runMethodValues}
+	s := p.Main(t, vkit.Scale(200, 1500))
+	if !vkit.Replaying() {
+		s.Done()
+	}
+}
